@@ -146,26 +146,30 @@ def rule_X(ctx):
             names = ['L%d' % k for k in range(len(lists))]
             for o in orders.weak_orderings(names):
                 ranks = [o[nm] for nm in names]
-                if n == 3:
-                    # lists: [0,2], [0,1,2]
-                    cells = {(0, 1): 0, (1, 2): 10 + ranks[lists.index([0, 1, 2])], (0, 2): 10 + ranks[lists.index([0, 2])]}
-                else:
-                    base = 100 if want_min else 0    # adjacent segments; the private segment of each list carries its rank
-                    t = {tuple(l): 3 * base + 10 + ranks[k] for k, l in enumerate(lists)}
-                    cells = {(0, 1): base, (1, 2): 0, (2, 3): base}
-                    cells[(1, 2)] = t[(0, 1, 2, 3)] - 2 * base
-                    cells[(0, 3)] = t[(0, 3)]
-                    cells[(1, 3)] = t[(0, 1, 3)] - base
-                    cells[(0, 2)] = t[(0, 2, 3)] - base
-                judge('order', n, cells, mname, mval, want_min, 'ordering of the list sums: ' + orders.describe(
-                    {'+'.join('%d-%d' % s for s in _segs(l)): ranks[k] for k, l in enumerate(lists)}))
+                # several embeddings of the same ordering: adjacent segments dear / free / negative, all sums positive or negative
+                for base, K in ((100, 310), (0, 10), (-100, -1000), (-1, -8)):
+                    t = {tuple(l): K + ranks[k] for k, l in enumerate(lists)}
+                    if n == 3:
+                        cells = {(0, 1): base, (1, 2): t[(0, 1, 2)] - base, (0, 2): t[(0, 2)]}
+                    else:
+                        cells = {(0, 1): base, (2, 3): base, (1, 2): t[(0, 1, 2, 3)] - 2 * base, (0, 3): t[(0, 3)],
+                                 (1, 3): t[(0, 1, 3)] - base, (0, 2): t[(0, 2, 3)] - base}
+                    judge('order', n, cells, mname, mval, want_min, 'ordering of the list sums: ' + orders.describe(
+                        {'+'.join('%d-%d' % s_ for s_ in _segs(l)): ranks[k] for k, l in enumerate(lists)}))
         # (b) n = 2..6: each candidate list in turn is the unique optimum (its segments cost 1 resp. 10, every other segment 10 resp. 1)
         for n in (2, 3, 4, 5, 6):
             for target in _lists(n):
                 tset = set(_segs(target))
-                cells = {(i, j): ((1 if want_min else 10) if (i, j) in tset else (10 if want_min else 1))
-                         for i in range(n) for j in range(i + 1, n)}
-                judge('unique', n, cells, mname, mval, want_min, 'unique optimum %r' % (target,))
+                for lo, hi in ((1, 10), (-10, -1)):
+                    # (lo, hi) = (1, 10): the segments of the target are cheap (dear when maximising), all others dear (cheap);
+                    # (-10, -1): the same with negative costs.  Any other list then has a strictly worse sum.
+                    good, other = (lo, hi) if want_min else (hi, lo)
+                    cells = {(i, j): (good if (i, j) in tset else other) for i in range(n) for j in range(i + 1, n)}
+                    lsum = {tuple(l): sum(cells[s_] for s_ in _segs(l)) for l in _lists(n)}
+                    bestv = (min if want_min else max)(lsum.values())
+                    if [l for l, v in lsum.items() if v == bestv] != [tuple(target)]:
+                        continue        # this embedding does not single the target out (negative costs favour long lists when minimising)
+                    judge('unique', n, cells, mname, mval, want_min, 'unique optimum %r' % (target,))
         # (c) a narrow integer matrix whose segment costs fit the type but whose sums do not (the table must not inherit the dtype):
         #     only judged where the same costs as floats are answered correctly
         for n, cells in ((3, {(0, 1): 200, (1, 2): 200, (0, 2): 150}),
@@ -188,7 +192,7 @@ def rule_X(ctx):
     ctx.check(not bad['form'], 'C12.B', f, 'the result is a strictly increasing index list from the first to the last candidate '
               '(all case matrices, n = 2..6)', witness={'cases': bad['form']}, node=f.node, key='form')
     ctx.check(not bad['order'], 'C12.D', f,
-              'for every weak ordering of the summed costs of the candidate lists (n = 3: 3 orderings, n = 4: 75 orderings) and both '
+              'for every weak ordering of the summed costs of the candidate lists (n = 3: 3 orderings, n = 4: 75 orderings; four embeddings each, costs of either sign) and both '
               'directions the returned list attains the minimum (MINIMIZE) resp. the maximum (MAXIMIZE)',
               witness={'counter-examples': bad['order']}, node=f.node, key='direction')
     ctx.check(not bad['unique'], 'C12.R', f,
